@@ -171,7 +171,64 @@ def plan_hmc(prop, flags_quick, flags_thorough, oracle_text, profiles_quick=("re
     return plan
 
 
+def plan_loom(prop, oracle_text):
+    def plan(tier):
+        import loomrun
+        if tier == "thorough":
+            sets = [dict(set="full", shards=48), dict(set="k3", shards=48, preemptions=3), dict(set="three", shards=16, preemptions=3), dict(set="quick", shards=16)]
+        else:
+            sets = [dict(set="quick", shards=16)]
+        return dict(custom=lambda vc, t: loomrun.run(vc, prop, t, sets), level="model_checking", distinct_is_max=False,
+                    rule="loom (exhaustive DPOR over interleavings and the C11 outcomes loom models) on the real crate compiled with loom atomics, over a generated family of programs: "
+                         "representation in {promotable even/odd, with and without front offset, promoted, Vec-shared, owner-backed, frozen BytesMut half, two/three live BytesMut pieces, static} x main behaviour "
+                         "{keep, drop early, clone+drop, into Vec} x unordered pairs (triples) of per-thread operation sequences over {clone via &Bytes, clone own, read, slice, drop, try_into_mut, Into<BytesMut>, Into<Vec>, "
+                         "BytesMut write / reclaiming reserve / try_reclaim / freeze / unsplit}; one loom::model per program; oracle: " + oracle_text +
+                         ". evaluations = loom executions; distinct_nontrivial = programs in which different schedules produced different outcomes (who won ownership)",
+                    bounds="quick: 2 threads + main, <= 2 ops per thread over the racy core, programs with <= 3 ops in total, unbounded preemptions; thorough: full alphabet K<=2 unbounded, racy core K<=3 with preemption bound 3, 3 worker threads with preemption bound 3",
+                    assumptions=["loom's memory model is a sound subset of C11 (no SeqCst fences precision, no load buffering)", "ghost-cell accesses stand for the crate's internal buffer accesses (placed so that a reported race implies a real one)",
+                                 "the extra-platforms (portable-atomic) build is not modelled by loom"])
+    return plan
+
+
+def plan_c18(tier):
+    ws = []
+    def R(args, prof="rel", par="even"):
+        return W("hmc", ["recycle", "--parity", par] + args, profile=prof, crash_property="C18")
+    # closed graphs (fixpoint): small sets
+    ws.append(R(["--set", "small", "--k", "0", "--roundtrip", "--unsplit", "--periodic", "3"]))
+    ws.append(R(["--set", "small", "--k", "0", "--roundtrip", "--unsplit", "--periodic", "3"], par="odd"))
+    ws.append(R(["--set", "small", "--k", "1"]))
+    ws.append(R(["--set", "small", "--k", "1", "--roundtrip"], par="odd"))
+    ws.append(R(["--set", "small", "--k", "1", "--periodic", "3", "--max-states", "1"]))
+    ws.append(R(["--set", "small", "--k", "2", "--periodic", "3", "--roundtrip", "--unsplit", "--max-states", "1"]))
+    # threshold sets (original-capacity logic): periodic enumeration in quick, fixpoint in thorough
+    for st in ["t1k", "t2k", "t64k"]:
+        ws.append(R(["--set", st, "--k", "0", "--roundtrip", "--unsplit", "--periodic", "2", "--rounds", "40", "--max-states", "20000"]))
+        ws.append(R(["--set", st, "--k", "1", "--periodic", "2", "--rounds", "40", "--max-states", "1"]))
+    if tier == "thorough":
+        ws.append(R(["--set", "small", "--k", "2", "--max-states", "3000000"]))
+        ws.append(R(["--set", "small", "--k", "1", "--unsplit", "--max-states", "3000000"]))
+        ws.append(R(["--set", "t64k", "--k", "0", "--max-states", "400000"]))
+        ws.append(R(["--set", "t64k", "--k", "1", "--max-states", "600000"]))
+        ws.append(R(["--set", "t1k", "--k", "0", "--max-states", "2000000"]))
+        ws.append(R(["--set", "t2k", "--k", "0", "--max-states", "2000000"]))
+        ws.append(R(["--set", "small", "--k", "0", "--roundtrip", "--unsplit", "--periodic", "4"], prof="dbg"))
+        ws.append(R(["--set", "small", "--k", "1", "--periodic", "4", "--max-states", "1"]))
+    return dict(
+        workers=ws, level="model_checking", distinct_is_max=False,
+        rule="the recycle protocol as a nondeterministic transition system over the real crate (refill = reserve(n)+append, consume by split/split_to/advance/truncate/clear with or without freeze, retention window of k parts, "
+             "freeze->try_into_mut round trip, unsplit variants), explored breadth-first over canonical states (hook descriptor of the recycling handle + which block each retained part pins) TO FIXPOINT: a closed graph covers "
+             "histories of every length; oracles: live heap bytes <= explicit bound in every state, (k=0) no byte-buffer-allocating transition on a cycle (Tarjan SCC), reserve on an empty sole owner of a large-enough buffer touches no allocator. "
+             "Plus exhaustive enumeration of all periodic schedules of period <= 3 (4 thorough) over the alphabet for 400 rounds. states = canonical states; distinct_nontrivial = states",
+        bounds="small sets: initial capacity {0,8,16}, n in {1,3,7}, k in {0,1} closed (k=2 thorough); threshold sets: initial capacity {1024,2048,65536}, n in {100,1000,5000} on a grid of 100 (closed graphs in thorough where they close within the state budget, periodic enumeration in quick)",
+        assumptions=["retained parts are inert (only ever dropped), so only the block they pin is part of the state", "sizes are bounded as stated; a graph that does not close within the budget is reported as non-exhaustive, never as a violation"],
+    )
+
+
 PLANS = {
+    "C18": plan_c18,
+    "C05": plan_loom("C05", "every read sees the expected bytes at the original address; at most one party obtains the buffer without copying and whoever does overwrites it; the tracked buffer is freed exactly once, no control block referring to it leaks, no block is freed twice"),
+    "C06": plan_loom("C06", "loom's causality check on ghost UnsafeCells: a ghost read before every use/drop of a handle, a ghost write at the real free (inside the allocator hook) and after every zero-copy exclusive acquisition; plus loom's own checks on the crate's atomics (with_mut vs concurrent loads)"),
     "C01": plan_hmc("C01", [], [], "after every step every live handle's bytes, len, Buf::remaining/chunk equal an independent Vec<u8> model with globally unique payload bytes; Vec::from results compared"),
     "C02": plan_hmc("C02", ["--oom-probes"], ["--oom-probes"], "allocator ledger (unknown/interior/double/wrong-layout frees), canaries and poison verified after every step, containment of every non-empty handle in one live block or registered region, process status (crash handler), fork-isolated allocatable-but-huge requests", profiles_quick=("rel", "dbg")),
     "C03": plan_hmc("C03", ["--perms"], ["--perms"], "drop-all epilogue after every transition and in every permutation at every new canonical state: no crate-attributed block live, no double free; instrumented owner: as_ref once, dropped exactly once, not before the last view, also when as_ref panics"),
